@@ -382,7 +382,7 @@ func c01MultiScn(n, atMs, bound int) *Scn {
 }
 
 func c01Check(c *harness.Ctx) {
-	scns := c01Scenarios(c.Thorough())
+	scns := withLegacy(c01Scenarios(c.Thorough()), legacyEvery(c.Thorough(), 6))
 	c.Res.Extra["scenarios_total"] = float64(len(scns)) / float64(max(c.Of, 1))
 	for i, s := range scns {
 		if !c.Mine(i) {
